@@ -327,7 +327,12 @@ pub fn scenario(seed: u64, exhaustive_bits: bool, trials: usize, rep: &mut Repor
                     15 | 16 => Mutation::SpliceBody,
                     17 => Mutation::SpliceOldGeneration,
                     18 => Mutation::SpliceOtherPeer,
-                    19 => Mutation::OtherSource(if lab.rng.bool() { qa } else { v4(10, 77, 0, 1 + lab.rng.below(200) as u8, 5000) }),
+                    19 => Mutation::OtherSource(match lab.rng.below(3) {
+                        0 => qa,
+                        // same IP, another port
+                        1 => SocketAddr::new(pa.ip(), 9001 + lab.rng.below(1000) as u16),
+                        _ => v4(10, 77, 0, 1 + lab.rng.below(200) as u8, 5000),
+                    }),
                     20 => Mutation::RedirectAsIs,
                     21 => Mutation::RedirectRemasked,
                     _ => Mutation::Identity,
